@@ -214,8 +214,13 @@ impl CharProperty {
             })?;
         let mut cate_idset = base_cinfo.cate_idset();
         for target in targets {
-            let target_id = cate_map.get(target.as_ref()).unwrap();
-            let cinfo = cate2info.get(target_id).unwrap();
+            let cinfo = cate_map
+                .get(target.as_ref())
+                .and_then(|target_id| cate2info.get(target_id))
+                .ok_or_else(|| {
+                    let msg = format!("Undefined category: {}", target.as_ref());
+                    VibratoError::invalid_format("char.def", msg)
+                })?;
             cate_idset |= 1 << cinfo.base_id();
         }
         base_cinfo.reset_cate_idset(cate_idset);
@@ -278,6 +283,11 @@ impl CharProperty {
         let mut categories = vec![];
         for &cate in cols[1..].iter().take_while(|&&col| !col.starts_with('#')) {
             categories.push(cate.to_string());
+        }
+
+        if categories.is_empty() {
+            let msg = format!("A character range must have one category at least, {line}");
+            return Err(VibratoError::invalid_format("char.def", msg));
         }
 
         Ok(CharRange {
